@@ -18,13 +18,14 @@ SeqSet(q) == {q[i] : i \in DOMAIN q}
 ProjOK(e) ==
   LET p == LProj IN
   /\ p.busy = SeqSet(e.busy)
-  /\ p.inapp = e.inapp
+  /\ p.inapp = e.inapp /\ p.incb = e.incb
   /\ p.atlock = {x.t : x \in {y \in SeqSet(e.inflight) : y.where = "Lock"}}
-  /\ p.ncb = e.ncbE /\ e.ncbS = e.ncbE
+  /\ p.ncb = e.ncbE /\ e.ncbS = e.ncbE + Len(e.incb)
 
 MatchEnv(a) ==
   CASE a.name = "StartCall"  -> a.call = ncalls + 1 /\ StartCall(a.conn, a.skind, a.gate)
     [] a.name = "ReleaseApp" -> ReleaseApp
+    [] a.name = "ReleaseCb"  -> ReleaseCb
     [] OTHER -> FALSE
 
 CNext ==
@@ -35,6 +36,6 @@ CNext ==
            \/ /\ Trace[l].ev = "LObs" /\ ProjOK(Trace[l]) /\ UNCHANGED vars
         /\ l' = l + 1 /\ run' = run /\ Mark(l + 1)
 
-CView == <<holder, cl, inapp, gated, Len(cbseq), ncalls, l, run>>
+CView == <<holder, cl, inapp, gated, cbopen, cbgated, Len(cbseq), ncalls, l, run>>
 Post == JsonSerialize("conform.json", [marks |-> SetToSeq({[run |-> r, hw |-> TLCGet(r)] : r \in Starts})])
 =============================================================================
